@@ -38,34 +38,46 @@ class Projector:
             return 0
         return i
 
+    def tasks(self):
+        """Tasks in task_list order; helper tasks appended by backward_simulate come last."""
+        m = self.m
+        extra = [t for t in m.project.workflow.task_list if id(t) not in m.tix]
+        return list(m.tasks) + extra, extra
+
     def state(self):
         m, Q = self.m, self.m.Q
         p = m.project
         self.inexact = []
+        tasks, extra = self.tasks()
+        tix = m.tix
+        if extra:
+            tix = dict(m.tix)
+            for i, t in enumerate(extra, len(m.tasks) + 1):
+                tix[id(t)] = i
         st = {
             "time": p.time,
             "status": STATUS[int(p.status)],
             "mode": MODE[int(p.simulation_mode)],
-            "ts": [TS[int(t.state)] for t in m.tasks],
-            "rem": [self.num(t.remaining_work_amount, Q, "rem") for t in m.tasks],
-            "aw": [[self.idx(m.wix, w, "aw") for w in t.allocated_worker_list] for t in m.tasks],
-            "af": [[self.idx(m.fix, f, "af") for f in t.allocated_facility_list] for t in m.tasks],
-            "est": [self.num(t.est, Q, "est") for t in m.tasks],
-            "eft": [self.num(t.eft, Q, "eft") for t in m.tasks],
-            "lst": [self.num(t.lst, Q, "lst") for t in m.tasks],
-            "lft": [self.num(t.lft, Q, "lft") for t in m.tasks],
+            "ts": [TS[int(t.state)] for t in tasks],
+            "rem": [self.num(t.remaining_work_amount, Q, "rem") for t in tasks],
+            "aw": [[self.idx(m.wix, w, "aw") for w in t.allocated_worker_list] for t in tasks],
+            "af": [[self.idx(m.fix, f, "af") for f in t.allocated_facility_list] for t in tasks],
+            "est": [self.num(t.est, Q, "est") for t in tasks],
+            "eft": [self.num(t.eft, Q, "eft") for t in tasks],
+            "lst": [self.num(t.lst, Q, "lst") for t in tasks],
+            "lft": [self.num(t.lft, Q, "lft") for t in tasks],
             "cpl": self.num(p.workflow.critical_path_length, Q, "cpl"),
             "ws": [RS[int(w.state)] for w in m.workers],
-            "wt": [[self.idx(m.tix, t, "wt") for t in w.assigned_task_list] for w in m.workers],
+            "wt": [[self.idx(tix, t, "wt") for t in w.assigned_task_list] for w in m.workers],
             "fs": [RS[int(f.state)] for f in m.facs],
-            "ft": [[self.idx(m.tix, t, "ft") for t in f.assigned_task_list] for f in m.facs],
+            "ft": [[self.idx(tix, t, "ft") for t in f.assigned_task_list] for f in m.facs],
             "cs": [CS[int(c.state)] for c in m.comps],
             "cp": [
                 (self.idx(m.pix, c.placed_workplace, "cp") if c.placed_workplace is not None else 0)
                 for c in m.comps
             ],
             "pc": [[self.idx(m.cix, c, "pc") for c in w.placed_component_list] for w in m.wps],
-            "rc": [sum(1 for s in t.state_record_list if int(s) == 1) for t in m.tasks],
+            "rc": [sum(1 for s in t.state_record_list if int(s) == 1) for t in tasks],
             "crash": False,
         }
         return st
@@ -142,3 +154,73 @@ class Projector:
         }
         s["inexact"] = sorted(set(self.inexact))
         return s, ids
+
+
+def extract_params(model):
+    """The static model parameters the specification's cfg carries, read back from the live
+    project (IDs mapped to indices; unknown IDs map to 0).  Used by C16: what was given to the
+    constructors must survive a JSON round trip."""
+    m, Q = model, model.Q
+    p = m.project
+    pr = Projector(m)
+
+    def ix(table, obj):
+        return table.get(id(obj), 0) if obj is not None else 0
+
+    def idnum(s, prefix):
+        try:
+            return int(s[1:]) if s is not None and s[0] == prefix else (0 if s is None else -1)
+        except Exception:
+            return -1
+
+    def num(x, scale):
+        try:
+            v = x * scale
+            return int(v) if int(v) == v else repr(x)
+        except Exception:
+            return repr(x)
+
+    def rule(r):
+        return getattr(r, "name", repr(r))
+
+    tasks = []
+    for t in m.tasks:
+        if t is None:
+            tasks.append(None)
+            continue
+        tasks.append({
+            "cls": type(t).__name__ if type(t).__name__ != "RankedTask" else "BaseTask",
+            "work": num(t.default_work_amount, Q), "prog": num(t.default_progress, 4), "auto": bool(t.auto_task),
+            "rate": num(t.work_amount_progress_of_unit_step_time, Q), "needF": bool(t.need_facility),
+            "comp": ix(m.cix, t.target_component),
+            "teams": [ix({id(x): i for i, x in enumerate(m.teams, 1)}, x) for x in t.allocated_team_list],
+            "wps": [ix(m.pix, x) for x in t.allocated_workplace_list],
+            "fixW": None if t.fixing_allocating_worker_id_list is None else [idnum(x, "W") for x in t.fixing_allocating_worker_id_list],
+            "fixF": None if t.fixing_allocating_facility_id_list is None else [idnum(x, "F") for x in t.fixing_allocating_facility_id_list],
+            "wrule": rule(t.worker_priority_rule), "frule": rule(t.facility_priority_rule),
+            "prule": rule(t.workplace_priority_rule), "due": t.due_time,
+            "tin": [[ix(m.tix, x), int(d)] for x, d in t.input_task_list],
+            "tout": [[ix(m.tix, x), int(d)] for x, d in t.output_task_list],
+        })
+    workers = [None if w is None else {
+        "team": idnum(w.team_id, "M"), "skill": sorted((k, num(v, Q)) for k, v in w.workamount_skill_mean_map.items()),
+        "fskill": sorted((k, num(v, 1)) for k, v in w.facility_skill_map.items()), "cost": num(w.cost_per_time, 1),
+        "solo": bool(w.solo_working), "abs": list(w.absence_time_list), "mainwp": idnum(w.main_workplace_id, "P")}
+        for w in m.workers]
+    facs = [None if f is None else {
+        "wp": idnum(f.workplace_id, "P"), "skill": sorted((k, num(v, 1)) for k, v in f.workamount_skill_mean_map.items()),
+        "cost": num(f.cost_per_time, 1), "solo": bool(f.solo_working), "abs": list(f.absence_time_list)}
+        for f in m.facs]
+    wps = [None if w is None else {
+        "cap": num(w.max_space_size, 2), "inputs": [ix(m.pix, x) for x in w.input_workplace_list],
+        "outputs": [ix(m.pix, x) for x in w.output_workplace_list],
+        "facs": [ix(m.fix, f) for f in w.facility_list]} for w in m.wps]
+    comps = [None if c is None else {
+        "space": num(c.space_size, 2), "children": [ix(m.cix, x) for x in c.child_component_list],
+        "parents": [ix(m.cix, x) for x in c.parent_component_list]} for c in m.comps]
+    proj = {"absL": list(p.absence_time_list), "autoAbs": bool(p.perform_auto_task_while_absence_time),
+            "init": p.init_datetime.strftime("%Y-%m-%d %H:%M:%S"), "unit": p.unit_timedelta.total_seconds()}
+    import json
+    raw = {"tasks": tasks, "workers": workers, "facs": facs, "wps": wps, "comps": comps, "project": proj}
+    # canonical text per section: TLC compares them as strings (JSON null / floats do not deserialise)
+    return {k: json.dumps(v, sort_keys=True) for k, v in raw.items()}
